@@ -255,3 +255,21 @@ pub enum ConcurrencyError {
     #[error("CAS check failed, try reading most recent item before writing again.")]
     CasFailed,
 }
+
+#[cfg(mainline_verif)]
+impl PutQuery {
+    pub fn verif_snapshot(&self) -> crate::verif::PutQuerySnapshot {
+        crate::verif::PutQuerySnapshot {
+            target: self.target,
+            stored_at: self.stored_at,
+            inflight_requests: self.inflight_requests.clone(),
+            errors: self
+                .errors
+                .iter()
+                .map(|(count, error)| (*count, error.code))
+                .collect(),
+            extra_nodes: self.extra_nodes.len(),
+            request: self.request.clone(),
+        }
+    }
+}
